@@ -499,10 +499,10 @@ def np_call(ev, name, args, kwargs, node):
             m = x.cls.find_method("__array__")
             if m is not None:
                 return ev.call_function(FuncV(m, None, x, m.cls), [], {}, node)
-        if isinstance(x, Lst) and x.pappends and not x.items and hasattr(x, "comp"):
+        dt = kwargs.get("dtype", arg(1) if name in ("asarray", "array", "asanyarray") and len(A) > 1 else None)
+        if isinstance(x, Lst) and x.pappends and not x.items and hasattr(x, "comp") and (dt is None or (isinstance(dt, Const) and dt.value is None)):
             return as_v(ev, x)
         v = as_v(ev, x)
-        dt = kwargs.get("dtype", arg(1) if name in ("asarray", "array", "asanyarray") and len(A) > 1 else None)
         if dt is not None and not (isinstance(dt, Const) and dt.value is None):
             from .evalr import ExtV
             last = dt.dotted.split(".")[-1] if isinstance(dt, ExtV) else (dt.value if isinstance(dt, Const) and isinstance(dt.value, str) else None)
